@@ -60,7 +60,7 @@ DECIDES = ('necessary conditions for "a pure-mode module imports and runs under 
 NOT_DECIDED = ('the transfer of the cdiv/cmod value clause from the enumerated small operands to large ones (a function with a magnitude threshold above 23 would pass; '
                'C38-EXACT excludes the float route); value conversion by cast / the typedef call / declare on run-time values (None, out-of-range, float to int); '
                'that EVERY spelling the compiler accepts for a bool directive works uncompiled (on the unmodified tree each bool directive supports one of bare / call: '
-               'rule_shape_all_forms, pending finding, not registered), with-statement use of directives without an explicit "with statement" scope, sub-option keywords '
+               'C38-ALLFORMS, registered; its 20 failing rows on the unmodified tree are the known finding K21), with-statement use of directives without an explicit "with statement" scope, sub-option keywords '
                '(`infer_types(verbose=True)`); the default of exceptval(check=); C type names reached only through parse_basic_type prefixes (longlong, uint, p_int); '
                'wrap-around of C integer arithmetic; program equivalence. '
                'Dotted special methods (cython.operator.*) and cython.view are compile-only by design and only enter through the SUBMOD exemptions.')
@@ -443,5 +443,6 @@ def run(ctx):
     pc = ast.parse("class X:\n    def visit_NameNode(self, node):\n        if node.as_cython_attribute() == 'compiled':\n            return ExprNodes.BoolNode(node.pos, value=False)\n        return node\n").body[0]
     r.positive_control(_compiled_rewrites(pc) == [('visit_NameNode', 4, False)], 'compiled rewritten to False')
     rules.append(r)
-    rules += [sC38.rule_exact(ctx), sC38.rule_exc(ctx), sC38.rule_trunc(ctx), sC38.rule_exit(ctx), sC38.rule_kind(ctx), sC38.rule_prange(ctx), sC38.rule_cop(ctx), sC38.rule_shape(ctx)]
+    rules += [sC38.rule_exact(ctx), sC38.rule_exc(ctx), sC38.rule_trunc(ctx), sC38.rule_exit(ctx), sC38.rule_kind(ctx), sC38.rule_prange(ctx), sC38.rule_cop(ctx), sC38.rule_shape(ctx),
+              sC38.rule_allforms(ctx)]      # C38-ALLFORMS: every accepted spelling; the rows failing on the unmodified tree are the known finding K21
     return rules
